@@ -22,8 +22,14 @@ TEXT = {
         technique="Lean 4 proof over bit-serial CRC spec + table model, correspondence to C by differential execution"),
 }
 TEXT["C17"] = dict(
-    text="(under construction) schema traversal model tied to build_schema/find_column/builder by correspondence",
-    level_note="Lean kernel; harness", technique="Lean 4 proof by structural induction over schema trees + differential correspondence")
+    text="Proved for every schema tree (unbounded depth/size, all labelings): build_schema's recursive descent over the "
+         "depth-first element list yields exactly the leaves in order with def/rep levels of the format rule "
+         "(C17_traverse_eq_spec), column count, element accessors per column, lookup by name, and the builder for any "
+         "number of add_column calls; plus a linear work bound for arbitrary (malformed) element lists. The Impl model is "
+         "tied to build_schema/find_column/builder by differential execution on random well-formed and malformed trees. "
+         "Nested schemas reach the real reader only through in-memory metadata here (file-level tie via C06 reference files).",
+    level_note="Lean kernel; hand-written Impl.Schema tied by sampled correspondence; names NUL-free; logical type carried verbatim",
+    technique="Lean 4 proof by structural induction over schema trees + differential correspondence")
 NOT_APPLICABLE = {}
 HOOK_COMMITS = []
 
